@@ -54,7 +54,7 @@ static int last_in_sock, last_out_sock, last_relay;
 
 static struct {
 	uint64_t cases, pumps, calls, bytes, full_states, eof_with_data, errors_injected, destroyed_midway, band_checks, eagain_out,
-		 ret1, ret0, retm1, stalls, relay_eof, max_buffered;
+		 ret1, ret0, retm1, stalls, relay_eof, max_buffered, spurious_calls, window_feeds;
 } S;
 
 static inline uint8_t code(const struct px *p, long pos) { return (uint8_t)(pos * 131 + (pos >> 8) * 7 + p->salt); }
@@ -96,16 +96,26 @@ static void note_io(int fd, long ret, int err)
 static int in_pump_call;
 void hk_read(int fd, const void *buf, size_t n, long ret, int err) { (void)buf; if (in_pump_call && n > 0) note_io(fd, ret, err); }
 void hk_write(int fd, const void *buf, size_t n, long ret, int err, int nb) { (void)buf; (void)n; (void)nb; if (in_pump_call) note_io(fd, ret, err); }
+static void feed(struct px *p, long n);
+static int window_feed_armed, no_spurious;
 void hk_splice(int fdin, int fdout, size_t len, long ret, int err)
 {
 	int is_in;
+	struct px *p;
 	(void)len;
 	if (!in_pump_call)
 		return;
-	if (px_of_fd(fdin, &is_in) != NULL)
+	if ((p = px_of_fd(fdin, &is_in)) != NULL) {
 		note_io(fdin, ret, err);
-	else
+		/* a writer's data lands on the input right after the pump's splice found it empty (before whatever the pump does next) */
+		if (ret < 0 && err == EAGAIN && is_in && window_feed_armed && p->in_w >= 0 && p->fed < p->total) {
+			window_feed_armed = 0;
+			feed(p, 1 + rng_n(&R, 300));
+			S.window_feeds++;
+		}
+	} else {
 		note_io(fdout, ret, err);
+	}
 }
 
 static void set_nb(int fd) { fcntl(fd, F_SETFL, fcntl(fd, F_GETFL) | O_NONBLOCK); }
@@ -242,8 +252,14 @@ static void call_pump(struct px *p)
 
 	want_in = p->bands_in && readable(p->in_r);
 	want_out = p->bands_out && writable(p->out_w);
-	if (!want_in && !want_out)
-		return;
+	if (!want_in && !want_out) {
+		/* mostly the pump is called because a band it asked for is ready; now and then it is called although nothing is (the first
+		 * kick after set-up, a wake-up whose cause is gone) */
+		if (p->ret0_seen || no_spurious || !rng_pct(&R, 12))
+			return;
+		S.spurious_calls++;
+	}
+	window_feed_armed = rng_pct(&R, 40);
 	buf_before = buffered(p);
 	in_pump_call = 1;
 	ret = iv_fd_pump_pump(p->ip);
@@ -352,6 +368,7 @@ static void run_pump(int slot)
 	if (p->last_ret == 1 && (int)steps != destroy_at + 1 && !p->io_error && destroy_at < 0) {
 		/* finish: feed the rest, signal end of file, keep draining; the pump must come to its end */
 		long idle = 0;
+		no_spurious = 1;	/* from here on the pump is only called for a band it asked for: "no progress" must mean a stall */
 		while (p->last_ret != 0 && !p->io_error && idle < 64 && p->out_r >= 0) {
 			long before = p->fed + p->drained + p->ncalls;
 			if (p->fed < p->total)
@@ -383,6 +400,7 @@ static void run_pump(int slot)
 				mon_viol("C17", "eof-not-relayed", g_mode, "RELAY_EOF is set and the pump is done, but the output peer sees no end of file");
 		}
 	}
+	no_spurious = 0;
 	p->bands_calls = 0;
 	iv_fd_pump_destroy(p->ip);
 	p->alive = 0;
@@ -432,11 +450,11 @@ int main(int argc, char **argv)
 	for (i = first; i < first + n; i++)
 		run_case(i, seed);
 	mon_printf("STAT mode_%s=1 cases=%llu pumps=%llu pump_calls=%llu bytes_verified=%llu band_checks=%llu buffer_full_states=%llu eof_with_data_pending=%llu "
-		   "write_errors_injected=%llu destroyed_midway=%llu ret1=%llu ret0=%llu retm1=%llu eof_relayed=%llu eagain_on_output=%llu injected=%llu violations=%d\n",
+		   "write_errors_injected=%llu destroyed_midway=%llu ret1=%llu ret0=%llu retm1=%llu eof_relayed=%llu eagain_on_output=%llu calls_with_nothing_ready=%llu data_arriving_right_after_empty_splice=%llu injected=%llu violations=%d\n",
 		   g_rw_mode ? "rw" : "splice", (unsigned long long)S.cases, (unsigned long long)S.pumps, (unsigned long long)S.calls, (unsigned long long)S.bytes,
 		   (unsigned long long)S.band_checks, (unsigned long long)S.full_states, (unsigned long long)S.eof_with_data,
 		   (unsigned long long)S.errors_injected, (unsigned long long)S.destroyed_midway, (unsigned long long)S.ret1, (unsigned long long)S.ret0,
-		   (unsigned long long)S.retm1, (unsigned long long)S.relay_eof, (unsigned long long)S.eagain_out, (unsigned long long)vt_stats.injected, mon_viol_total);
+		   (unsigned long long)S.retm1, (unsigned long long)S.relay_eof, (unsigned long long)S.eagain_out, (unsigned long long)S.spurious_calls, (unsigned long long)S.window_feeds, (unsigned long long)vt_stats.injected, mon_viol_total);
 	mon_printf("DONE\n");
 	return 0;
 }
